@@ -293,8 +293,9 @@ func scenarios(tier string, seed int64) []Scn {
 		// with refused attempts and with the server staying down
 		for _, b := range []int{1, 3} {
 			addb(Scn{Budget: b, Base: "awaiting", NCalls: 1, Script: sc, Writer: "call", Refuse: 1, Mode: "reject", Hook: "handshake", UserID: true})
-			if !strings.HasPrefix(sc, "drop@") && !strings.Contains(sc, "@redialfn.") && !strings.Contains(sc, "-redial") || sc == "slow-handler" {
-				addb(Scn{Budget: b, Base: "idle", Script: sc, Writer: []string{"call", "push"}[b/2], Refuse: -1, Mode: []string{"reject", "down"}[b/2]})
+			if !strings.HasPrefix(sc, "drop@") && !strings.Contains(sc, "@redialfn.") && sc != "second-redial" && sc != "redundant-redial" {
+				addb(Scn{Budget: b, Base: "idle", Script: sc, Writer: []string{"call", "push"}[b/2], Refuse: -1, Mode: "reject"})
+				addb(Scn{Budget: b, Base: "awaiting", NCalls: 2, Script: sc, Writer: []string{"push", "call"}[b/2], Refuse: -1, Mode: "down", UserID: true})
 			}
 		}
 	}
